@@ -54,6 +54,12 @@ def bases():
     e = engine("disabled-output", [in_a(), in_b()], [out_y(enabled=False), out_z()],
                [block("rb", [rule(P("a", "hi"), [C("y", "l"), C("z", "p")]), rule(OR(P("a", "lo"), P("b", "lo")), [C("z", "n")])])])
     es.append(e)
+    # the quotient families as operators of a ready engine (their formulas divide: an implementation detail such as an output buffer
+    # shaped like ONE operand raises where Minimum / Maximum never would)
+    es.append(engine("quotient-operators", [in_a(), in_b()], [out_y(aggregation="HamacherSum", resolution=2)],
+                     [block("rb", [copy.deepcopy(r_and), copy.deepcopy(r_or), copy.deepcopy(r_plain)], conjunction="EinsteinProduct", disjunction="NormalizedSum", implication="HamacherProduct")]))
+    es.append(engine("quotient-operators-2", [in_a(), in_b()], [out_y(aggregation="EinsteinSum", resolution=2)],
+                     [block("rb", [copy.deepcopy(r_and), copy.deepcopy(r_or), copy.deepcopy(r_plain)], conjunction="HamacherProduct", disjunction="HamacherSum", implication="EinsteinProduct")]))
     # a connective that occurs only in the RIGHT branch of an antecedent (`p or q and r` binds as or(p, and(q, r)); `p and (q or r)`), or only below two levels
     es.append(engine("and-only-in-right-branch", [in_a(), in_b()], [out_y()],
                      [block("rb", [copy.deepcopy(r_plain), rule(OR(P("a", "md"), AND(P("b", "lo"), P("a", "hi", "not"))), [C("y", "m")])])]))
